@@ -91,7 +91,16 @@ pub fn run(ctx: &Ctx, out: &mut Out) {
             };
             out.count(if finished { "stream_ended" } else { "stream_cut" });
             // (1) stream logic against the dumped table
-            if let Some((floundered, stored)) = solver.verif_table_dump(&peeled) {
+            let dump = solver.verif_table_dump(&peeled);
+            // `Table::mark_floundered` (an answer grew beyond max_size) wipes the stored answers and the
+            // strands: when that happens in the middle of the enumeration the answers already yielded
+            // are no longer in the table, and the model — a replay over the table as dumped at the
+            // end — does not apply
+            let floundered_midway = matches!(&dump, Some((true, _))) && seen.iter().any(|(k, _, _)| k != "floundered");
+            if floundered_midway {
+                out.count("table_floundered_midway");
+            }
+            if let (Some((floundered, stored)), false) = (dump, floundered_midway) {
                 // keys: position of the first stored answer with the same (subst, constraints)
                 let key_of = |s: &Canonical<AnswerSubst<ChalkIr>>| -> usize {
                     stored
